@@ -580,6 +580,7 @@ func runC07(c *Ctx) {
 	}
 	k.flush()
 	c.R.Sample(map[string]any{"malformed_input": `{"a"`, "expected": "error"})
+	c.Require("canonicalisations", "malformed_rejected", "reader_variants", "unicode_scalars_done")
 }
 
 func hasOutOfQuantifier(v *ref.Value) bool {
